@@ -318,7 +318,13 @@ func Explore(r *eng.Run, scs []*Scenario, opt Options) {
 			r.Incomplete(fmt.Sprintf("scenario %s: %d non-reproducible executions (divergences) not counted as violations", sc.Name, st.Divergences))
 		}
 		perSc[sc.Name] = map[string]any{"deviation_bound": bound, "executions": st.Execs, "with_deviations": st.Deviating, "choice_points": st.Points, "max_points_per_execution": st.MaxPoints, "distinct_outcomes": len(st.Outcomes), "verdicts": st.Verdicts}
-		if st.Sample != nil && len(perSc) <= 6 {
+		if st.Sample == nil {
+			// no deviating schedule exists (bound 0 or a single-threaded scenario): show the default schedule
+			if res, _, _ := runOne(sc, nil, false); res != nil {
+				st.Sample = append([]int{}, res.Choices...)
+			}
+		}
+		if len(perSc) <= 6 {
 			r.Sample(map[string]any{"scenario": sc.Name, "schedule_choices": st.Sample})
 		}
 		for o := range st.Outcomes {
